@@ -77,7 +77,8 @@ def parse_kani_output(out):
 
 class KaniJob:
     def __init__(self, site, harness, what, functions, bounds, timeout_s=900, mem_gb=12, expect_key=None,
-                 stubbing=True):
+                 stubbing=True, claim=None):
+        self.claim = claim
         self.site, self.harness, self.what, self.functions, self.bounds = site, harness, what, functions, bounds
         self.full = SITES[site][3] + '::' + harness
         self.timeout_s, self.mem_gb = timeout_s, mem_gb
@@ -111,6 +112,7 @@ def build_and_run(prop, sites, jobs, report, replay_fn=None, parallel=8):
         for job, rc, out, wall in results:
             o = report.add(Obligation(job.harness, 'kani', job.what, job.functions, job.bounds))
             o.wall_s = wall
+            o.claim = job.claim
             o.queries = 1
             o.paths = 1
             if rc == -9:
